@@ -57,7 +57,7 @@ type Policy struct {
 
 // LayoutFeatures - names of all variation points
 var LayoutFeatures = []string{"quote-style", "cmp-word", "assign-word", "member-de", "let-word", "prop-word", "pre-line", "inner-break",
-	"cont-indent", "comment-indent", "optional-comma", "extra-space", "opt-space", "ascii-twin", "backtick-id", "trail-comment", "final-eol", "raw-linebreak", "inner-blank", "blank-spaces", "stmt-sep", "trail-space"}
+	"cont-indent", "comment-indent", "optional-comma", "extra-space", "opt-space", "ascii-twin", "backtick-id", "trail-comment", "final-eol", "raw-linebreak", "inner-blank", "blank-spaces", "stmt-sep", "trail-space", "lead-comment", "mid-comment"}
 
 func (p *Policy) pick(n int, what string) int {
 	if p == nil || !p.Rich || n <= 1 {
@@ -675,7 +675,7 @@ func Layout(lines []Line, pol *Policy) (string, LineMap) {
 			b.WriteString(cind + "注：" + eol)
 			phys++
 		case 7:
-			b.WriteString(cind + []string{"//", "注7：", "/**/", "注：“”"}[pol.pick(4, "empty-comment")] + eol)
+			b.WriteString(cind + []string{"//", "注7：", "/**/", "注：“”"}[pol.pick(4, "pre-line")] + eol)
 			phys++
 			case 1:
 				// a blank line - which may hold white space of any kind and amount
@@ -703,6 +703,19 @@ func Layout(lines []Line, pol *Policy) (string, LineMap) {
 			b.WriteString(ind)
 		}
 	body:
+		// a bounded comment may stand before the first token of a statement, on its line
+		if !ln.IsRaw && len(ln.Toks) > 0 {
+			switch pol.pick(10, "lead-comment") {
+			case 1:
+				b.WriteString("/* 说明 */ ")
+			case 2:
+				b.WriteString("注：「说明」 ")
+			case 3:
+				b.WriteString("/**/")
+			case 4:
+				b.WriteString("注7：“说明”")
+			}
+		}
 		// statements are separated by line breaks or by ；: two simple statements of the same
 		// block may share a line
 		// (not after a line break inside this statement: whether what follows a ； on a
@@ -750,6 +763,17 @@ func Layout(lines []Line, pol *Policy) (string, LineMap) {
 						b.WriteString("，")
 						prev = Tok{S: "，", K: TSym}
 					}
+					// ... and between any two tokens of a line
+					if !broke {
+						switch pol.pick(24, "mid-comment") {
+						case 1:
+							b.WriteString(" /* 间 */")
+						case 2:
+							b.WriteString(" 注：「间」")
+						case 3:
+							b.WriteString(" /**/")
+						}
+					}
 					if !broke {
 						if needSpace(prev, t) {
 							b.WriteString(" ")
@@ -783,7 +807,7 @@ func Layout(lines []Line, pol *Policy) (string, LineMap) {
 				}
 			}
 			if joinNext && !brokeInLine {
-				b.WriteString([]string{"；", " ； ", "；；", "； "}[pol.pick(4, "stmt-sep-form")])
+				b.WriteString([]string{"；", " ； ", "；；", "； ", ";", " ; ", ";；"}[pol.pick(7, "stmt-sep")])
 				joined = true
 				continue
 			}
